@@ -256,6 +256,11 @@ def run(tier, fx=None, ck=None, control=False):
                                 and ancestors(h, pt[2][0][1][0]) & set(conts) and len(pt[2]) > 1 and pt[2][-1][0] in ("c", "m"):
                             pushes.append((pb, ancestors(h, pt[2][-1][1][0]) - {1}))
                     sites = pushes if conts and pushes else [(bi, anc - {1})]
+                    # the tests may sit where the module is taken out of the container again (`for path in order { if loaded.contains(path) { continue } ..`):
+                    # a call site that is gated itself needs no gate at the pushes
+                    d_once, d_deps, _ = gate_sites(h, bi, anc - {1})
+                    if d_once and d_deps:
+                        sites = [(bi, anc - {1})]
                 for sb, sanc in sites:
                     once, deps, why = gate_sites(h, sb, sanc)
                     where = F.short_span(h.blocks[sb]["t"][6])
@@ -310,6 +315,60 @@ def run(tier, fx=None, ck=None, control=False):
             if not deps:
                 ck.finding("R2.deps-first", "R2.deps-first/%s/bindings" % at, where,
                            "`%s` installs the import bindings of a program, but %s" % (at, why))
+
+    # ------------------------------------------------------------ R8 the order of module bodies does not come out of a hash table
+    ck.rule("R8.order-not-from-hash", "a list of module paths taken from the keys of a hash table is sorted before the function that schedules module bodies walks it "
+                                      "(evaluation order must not depend on hashing or on the order of the host's supplies)", floor=1)
+    n8 = 0
+    for lb in sorted(list_builders):
+        h = fx.fns.get(lb)
+        if h is None:
+            continue
+        for bi, t in h.calls():
+            d = t[1].get("d") or ""
+            if not ("HashMap::<" in d and d.split("::")[-1] in ("keys", "iter", "into_keys")) or not t[2] or t[2][0][0] not in ("c", "m"):
+                continue
+            if field_of(h, t[2][0][1][0]) != PM:
+                continue
+            # the local collection the keys are gathered in
+            vecs = []
+            for l in range(len(h.locals)):
+                if "Vec<ModulePath>" not in _norm(fx.tys(h.locals[l])) or fx.tys(h.locals[l]).startswith("&"):
+                    continue
+                dl = h.defs().get(l, [])
+                if not (len(dl) == 1 and dl[0][1] == "T" and (dl[0][2][1].get("u") or "").endswith("Iterator::collect")):
+                    continue
+                # `keys().cloned().collect()`: back from the collect through iterator adapters (receiver argument) to the keys() call
+                cur, hit = dl[0][2], False
+                for _ in range(6):
+                    if not cur[2] or cur[2][0][0] not in ("c", "m") or cur[2][0][1][1]:
+                        break
+                    src = cur[2][0][1][0]
+                    if src == t[3][0]:
+                        hit = True
+                        break
+                    d1 = M.trace_back(h, src)
+                    if not d1 or d1[1] != "T":
+                        break
+                    if d1[2] is t:
+                        hit = True
+                        break
+                    cur = d1[2]
+                if hit:
+                    vecs.append(l)
+            for l in vecs:
+                n8 += 1
+                sorts = [b2 for b2, t2 in h.calls() if (t2[1].get("d") or "").split("::")[-1].startswith("sort") and t2[2] and t2[2][0][0] in ("c", "m")
+                         and l in ancestors(h, t2[2][0][1][0])]
+                walks = [b2 for b2, t2 in h.calls() if (t2[1].get("u") or "").endswith(("IntoIterator::into_iter",)) and t2[2] and t2[2][0][0] in ("c", "m")
+                         and l in ancestors(h, t2[2][0][1][0])]
+                ok8 = bool(sorts) and all(any(h.dominates(sb, wb) for sb in sorts) for wb in walks)
+                ck.instance("R8.order-not-from-hash", "%s: keys of %s gathered in `%s`" % (lb, PM, h.var_name(l) or "_%d" % l), F.short_span(t[6]), ok=ok8)
+                if not ok8:
+                    ck.finding("R8.order-not-from-hash", "R8.order-not-from-hash/%s" % lb, F.short_span(t[6]),
+                               "`%s` walks the keys of `%s` in hash order to decide which module bodies run next: three independent imports `./z`, `./b`, `./m` run as "
+                               "b, m, z, and the order changes with the order of the host's supplies" % (lb, PM))
+    ck.anchor(n8 >= 1, pre + "key lists of the pending-module table in the scheduling function (found %d)" % n8)
 
     # ------------------------------------------------------------ R3
     ck.rule("R3.canonical-keys", "ImportRequest.resolved_path is the result of ModulePath::resolve; the interpreter never builds a ModulePath from raw text",
